@@ -22,6 +22,7 @@ mod c29f;
 mod c21;
 mod c19;
 mod kindwire;
+mod c32;
 mod gens;
 mod lang;
 mod vrlrun;
@@ -65,6 +66,7 @@ const EXECS: &[Exec] = &[
     c29f::exec,
     c21::exec,
     c19::exec,
+    c32::exec,
 ];
 
 /// Run one case (`op` + inputs) on the implementation: the first module that recognises the op answers.
@@ -108,6 +110,7 @@ fn generate(prop: &str, sink: &mut sink::Sink, rng: &mut rng::Rng, n: u64) -> bo
         }
         "C21" => c21::generate(sink, rng, n),
         "C19" => c19::generate(sink, rng, n),
+        "C32" => c32::generate(sink, rng, n),
         _ => return false,
     }
     true
